@@ -208,6 +208,11 @@ fn handle(job: &Value, scratch: &PathBuf) -> Value {
         res["lines"] = line_records(&out_text);
         res["ws"] = ws_summary(&out_text);
     }
+    if wants(job, "uses") {
+        let ed = job["opts"]["edition"].as_str().unwrap_or("2015").to_owned();
+        res["uses_in"] = uses_projection(&src, &ed);
+        res["uses_out"] = uses_projection(&out_text, &ed);
+    }
     if wants(job, "lex") {
         res["lex_in"] = lex_summary(&src);
         res["lex_out"] = lex_summary(&out_text);
@@ -464,4 +469,90 @@ fn line_records(text: &str) -> Value {
         start = end + 1;
     }
     json!(out)
+}
+
+
+// ---------------------------------------------------------------------------
+// C10: the `use` items of a text, parsed by rustc_parse (never by rustfmt).
+// ---------------------------------------------------------------------------
+fn use_tree_json(t: &rustc_ast::ast::UseTree) -> Value {
+    use rustc_ast::ast::UseTreeKind;
+    let path: Vec<String> = t.prefix.segments.iter().map(|s| s.ident.to_string()).collect();
+    match &t.kind {
+        UseTreeKind::Simple(rename) => json!({"k": "simple", "path": path,
+            "rename": rename.map(|r| r.to_string()).unwrap_or_default(), "items": []}),
+        UseTreeKind::Glob => json!({"k": "glob", "path": path, "rename": "", "items": []}),
+        UseTreeKind::Nested { items, .. } => json!({"k": "nested", "path": path, "rename": "",
+            "items": items.iter().map(|(t, _)| use_tree_json(t)).collect::<Vec<_>>()}),
+    }
+}
+
+fn uses_projection(text: &str, edition: &str) -> Value {
+    use rustc_span::edition::Edition;
+    let ed = match edition {
+        "2018" => Edition::Edition2018,
+        "2021" => Edition::Edition2021,
+        "2024" => Edition::Edition2024,
+        _ => Edition::Edition2015,
+    };
+    let text = text.to_owned();
+    let r = catch_unwind(AssertUnwindSafe(|| {
+        rustc_span::create_session_globals_then(ed, None, || {
+            let psess = rustc_session::parse::ParseSess::with_dcx(
+                rustc_errors::DiagCtxt::new(Box::new(rustc_errors::emitter::SilentEmitter {
+                    fatal_emitter: Box::new(rustc_errors::emitter::HumanEmitter::new(
+                        Box::new(std::io::sink()),
+                        rustc_errors::fallback_fluent_bundle(
+                            rustc_driver::DEFAULT_LOCALE_RESOURCES.to_vec(),
+                            false,
+                        ),
+                    )),
+                    fatal_note: None,
+                    emit_fatal_diagnostic: false,
+                })),
+                std::sync::Arc::new(rustc_span::source_map::SourceMap::new(
+                    rustc_span::source_map::FilePathMapping::empty(),
+                )),
+            );
+            let mut parser = match rustc_parse::new_parser_from_source_str(
+                &psess,
+                rustc_span::FileName::Custom("proj".to_owned()),
+                text,
+            ) {
+                Ok(p) => p,
+                Err(errs) => {
+                    for e in errs {
+                        e.cancel();
+                    }
+                    return Value::Null;
+                }
+            };
+            let krate = match parser.parse_crate_mod() {
+                Ok(k) => k,
+                Err(e) => {
+                    e.cancel();
+                    return Value::Null;
+                }
+            };
+            let mut items = vec![];
+            for item in &krate.items {
+                match &item.kind {
+                    rustc_ast::ast::ItemKind::Use(tree) => {
+                        let vis = rustc_ast_pretty::pprust::vis_to_string(&item.vis);
+                        let attrs: Vec<String> = item
+                            .attrs
+                            .iter()
+                            .map(|a| rustc_ast_pretty::pprust::attribute_to_string(a))
+                            .collect();
+                        items.push(json!({"use": true, "vis": vis.trim(), "attrs": attrs,
+                                          "tree": use_tree_json(tree)}));
+                    }
+                    _ => items.push(json!({"use": false, "vis": "", "attrs": [],
+                                           "tree": {"k": "other", "path": [], "rename": "", "items": []}})),
+                }
+            }
+            json!(items)
+        })
+    }));
+    r.unwrap_or(Value::Null)
 }
